@@ -5,6 +5,16 @@ import re
 
 HALF = 1 << 23
 MOD = 1 << 24
+NOT_MODELLED = "not-modelled blockwise"     # the Lean driver's answer for a line with a block-wise resource (Driver/Observe.lean)
+BLOCK_WAIT_MS = 2000      # how long the server may hold a notification back behind a block-wise transfer to the same client
+                          # that the client has stopped driving (libcoap: 2 s after the last block it sent); fairness bound
+VER_MOD = 251             # harness/observe.c: every byte of a block-wise body = (number of chg events on the resource) mod 251
+
+
+def is_blockwise(inp):
+    """recognised from the INPUT line only: some resource in R= has mode letter b (or B = b with NOTIFY_CON)"""
+    w = inp.split()
+    return len(w) >= 3 and w[0] == "obs" and w[2].startswith("R=") and any(x[:1] in ("b", "B") for x in w[2][2:].split(","))
 
 
 def serial_gt(new, old):
@@ -13,7 +23,7 @@ def serial_gt(new, old):
 
 
 def parse_state(s):
-    st = {"R": {}, "S": {}, "Q": [], "t": None, "P": None}
+    st = {"R": {}, "S": {}, "Q": [], "t": None, "P": None, "L": {}}
     for w in s.split():
         if w.startswith("t="):
             st["t"] = int(w[2:])
@@ -34,6 +44,10 @@ def parse_state(s):
         elif w[0] == "S":
             k, v = w[1:].split("=", 1)
             st["S"][int(k)] = None if v == "-" else dict(zip(("ref", "con", "txmid"), map(int, v.split("/"))))
+        elif w[0] == "L" and "=" in w:
+            # block-wise lines: lg_xmit list of the session (diagnostic only, no clause reads it)
+            k, v = w[1:].split("=", 1)
+            st["L"][int(k)] = None if v == "-" else dict(zip(("n", "last_obs", "all_sent"), map(int, v.split("."))))
         elif w[0] == "Q":
             body = w[2:-1]
             for e in body.split(",") if body else []:
@@ -54,7 +68,33 @@ def parse_out(w):
         o["c"], o["n"] = int(c), int(n)
     else:
         o["c"] = int(head[1:])
+    o["blk"] = o["plen"] = o["pver"] = None
+    if len(f) > 6:
+        # block-wise lines: Block2 option num/m/szx or -, then payload length / the body version its bytes spell or -
+        if f[6] != "-":
+            o["blk"] = dict(zip(("num", "m", "szx"), map(int, f[6].split("/"))))
+        ln, v = f[7].split("/")
+        o["plen"] = int(ln)
+        o["pver"] = None if v == "-" else int(v)
     return o
+
+
+def held_back_behind_blocks(impl):
+    """COVERAGE STATISTICS ONLY (no verdict depends on it): did some event leave an observer entry dirty, its resource partially
+    dirty, with no Confirmable outstanding on the session but a block-wise transfer of the session (head lg_xmit) unfinished and
+    used less than BLOCK_WAIT_MS ago?  That is the state the lg_xmit deferral branch of coap_notify_observers leaves behind."""
+    try:
+        for part in impl.split(" ||", 1)[0].split(" | "):
+            st = parse_state(part.split(";", 1)[1])
+            for rr in st["R"].values():
+                if rr and rr["pdirty"]:
+                    for x in rr["subs"]:
+                        sess, lg = st["S"].get(x["c"]), st["L"].get(x["c"])
+                        if x["dirty"] and sess and sess["con"] == 0 and lg and lg["all_sent"] == 0 and lg["last_obs"] + BLOCK_WAIT_MS > st["t"]:
+                            return True
+    except Exception:
+        pass
+    return False
 
 
 def tok_of(c, t):
@@ -82,6 +122,11 @@ def check(inp, impl, consts):
     chg_at = {}       # r -> indices of chg events
     sup = {}          # (c, tok) -> event index of a Reset the server could not attribute (open finding)
     epoch = {}        # (c, tok) -> event index of the registration that created the current entry
+    bw = is_blockwise(inp)
+    bres = set(r for r, m in enumerate(rmodes) if m in ("b", "B"))     # resources answering with a body larger than one block
+    nver = {}         # r -> number of chg events so far = the version every byte of a block-wise body spells (mod 251)
+    lastver = {}      # (c, tok) -> (body version in the first block last sent under this token, event index)
+    t_blk = {}        # c -> virtual time of the last datagram with a Block2 option sent to client c
     amb = set()       # (c, tok) used by the client against the rules (one token on two resources at once, or re-used with
                       # another query): what "the observation" is becomes ambiguous; such keys follow the server's table and
                       # are not judged until the table lists them nowhere
@@ -166,7 +211,11 @@ def check(inp, impl, consts):
                     deregister(key[0], key[1], r, "resource deletion")
         elif op == "err":
             errflag[int(f[1])] = int(f[2])
+        elif op == "blk":
+            pass          # GET for one more block of a body in progress, no Observe option: no effect on any registration
         elif op == "chg":
+            if prev is None or prev["R"].get(int(f[1])) is not None:
+                nver[int(f[1])] = nver.get(int(f[1]), 0) + 1
             rr = prev["R"].get(int(f[1])) if prev else None
             if rr and rr["subs"]:                      # a change is signalled to the observers only if there are any
                 chg_at.setdefault(int(f[1]), []).append(k)
@@ -179,7 +228,7 @@ def check(inp, impl, consts):
                         continue
                     if op == "lost" and int(f[1]) == qn["c"]:
                         continue
-                    if op in ("adv", "io", "reg", "can", "get", "ack", "rst") and qn["cnt"] >= consts.get("maxRetransmit", 4) and qn["due"] <= st["t"]:
+                    if op in ("adv", "io", "reg", "can", "get", "blk", "ack", "rst") and qn["cnt"] >= consts.get("maxRetransmit", 4) and qn["due"] <= st["t"]:
                         nt = next((x for x in reversed(notes.get(qn["c"], [])) if x["mid"] == qn["mid"]), None)
                         if nt:
                             key = (qn["c"], nt["tok"])
@@ -194,6 +243,8 @@ def check(inp, impl, consts):
                 continue
             c = o["c"]
             key = (c, o["tok"])
+            if o["blk"] is not None:
+                t_blk[c] = st["t"]
             if o["tag"] == "n":
                 o["k"] = k
                 notes.setdefault(c, []).append(o)
@@ -238,9 +289,19 @@ def check(inp, impl, consts):
                             viol.append(("not-increasing", "event #%d (%s): notification to client %d token %s carries Observe=%d, not greater (24-bit "
                                          "serial arithmetic) than %d sent at event #%d" % (k, ev, c, o["tok"], o["obs"], v0, k0)))
                 last[key] = (o["obs"], False, k, rs0[0])
+                if bw and len(rs0) == 1 and rs0[0] in bres:
+                    # block-wise notification: it is the FIRST block that carries the Observe option, and the body is the
+                    # resource's state at the time it is sent
+                    if o["blk"] is not None and o["blk"]["num"] != 0:
+                        viol.append(("blockwise-note-not-first-block", "event #%d (%s): notification Observe=%d to client %d token %s starts at block %d" % (
+                            k, ev, o["obs"], c, o["tok"], o["blk"]["num"])))
+                    if o["pver"] != nver.get(rs0[0], 0) % VER_MOD:
+                        viol.append(("stale-body", "event #%d (%s): notification Observe=%d to client %d token %s carries body version %s, r%d is at version %d" % (
+                            k, ev, o["obs"], c, o["tok"], o["pver"], rs0[0], nver.get(rs0[0], 0) % VER_MOD)))
+                    lastver[key] = (o["pver"], k)
                 # confirmable cadence, per registration, only where one resource is observed under this token
                 rs = rs0
-                if rmodes[rs[0]] in "dn":
+                if rmodes[rs[0]] in "dnb":
                     ks = kinds.setdefault(key, [])
                     ks.append(o["kind"])
                     if len(ks) > max_non and "C" not in ks[-(max_non + 1):]:
@@ -286,6 +347,11 @@ def check(inp, impl, consts):
                             viol.append(("reg-equal", "event #%d (%s): registration response to client %d token %s repeats Observe=%d of the "
                                          "notification of event #%d" % (k, ev, c, o["tok"], o["obs"], k0)))
                     last[key] = (o["obs"], True, k, r)
+                    if bw and r in bres:
+                        if o["pver"] != nver.get(r, 0) % VER_MOD:
+                            viol.append(("stale-body", "event #%d (%s): registration response to client %d token %s carries body version %s, r%d is at "
+                                         "version %d" % (k, ev, c, o["tok"], o["pver"], r, nver.get(r, 0) % VER_MOD)))
+                        lastver[key] = (o["pver"], k)
                 elif op == "reg" and o["code"] >= 128:
                     c_, r, q = int(f[1]), int(f[2]), int(f[4])
                     was = key in reg and r in reg[key]
@@ -346,9 +412,28 @@ def check(inp, impl, consts):
             s = prev["S"].get(c)
             if rr is None or s is None or s["con"] != 0 or any(qn["c"] == c for qn in prev["Q"]):
                 continue
-            if (c, tok) not in last or last[(c, tok)][0] != rr["observe"]:
-                viol.append(("latest-not-notified", "after the fair tail client %d token %s was last told Observe=%s but r%d is at %d" % (
-                    c, tok, last.get((c, tok), ("nothing",))[0], r, rr["observe"])))
+            if not bw:
+                if (c, tok) not in last or last[(c, tok)][0] != rr["observe"]:
+                    viol.append(("latest-not-notified", "after the fair tail client %d token %s was last told Observe=%s but r%d is at %d" % (
+                        c, tok, last.get((c, tok), ("nothing",))[0], r, rr["observe"])))
+                continue
+            # block-wise line.  A notification may be held back while a block-wise transfer to the same client is in progress,
+            # but only for a bounded time after the client's last block request: once nothing with a Block2 option went to
+            # the client for BLOCK_WAIT_MS, no Confirmable is outstanding and the I/O loop has run (the three `io`), the FIRST
+            # block of a notification carrying the resource's final Observe value -- and, for a block-wise resource, the final
+            # body version -- must have been sent: a change signalled during an earlier block-wise notification is not lost.
+            if c in t_blk and t_blk[c] + BLOCK_WAIT_MS > prev["t"]:
+                continue
+            told = last.get((c, tok))
+            lv = lastver.get((c, tok))
+            want_ver = nver.get(r, 0) % VER_MOD
+            if told is None or told[0] != rr["observe"]:
+                viol.append(("latest-not-notified-blockwise", "after the fair tail (t=%d, last block-wise datagram to client %d at t=%s, no Confirmable "
+                             "outstanding) client %d token %s was last told Observe=%s but r%d is at %d" % (
+                                 prev["t"], c, t_blk.get(c), c, tok, told[0] if told else "nothing", r, rr["observe"])))
+            elif r in bres and (lv is None or lv[1] != told[2] or lv[0] != want_ver):
+                viol.append(("latest-not-notified-blockwise", "after the fair tail client %d token %s holds Observe=%d with body version %s but r%d is at "
+                             "version %d" % (c, tok, told[0], lv[0] if lv else None, r, want_ver)))
     return viol
 
 
